@@ -989,6 +989,24 @@ func main() {
 			os.Exit(1)
 		}
 	}
+	// static census of the file I/O sites of package storage and what each function can reach
+	cen, err := census(filepath.Join(*repo, "storage"))
+	if err != nil {
+		fmt.Fprintln(os.Stderr, "gen_protocol:", err)
+		os.Exit(1)
+	}
+	ioChanged, err := writeIoSites(cen, src.classes, *out)
+	if err != nil {
+		fmt.Fprintln(os.Stderr, "gen_protocol:", err)
+		os.Exit(1)
+	}
+	changed = changed || ioChanged
+	for _, s := range cen.sites {
+		fmt.Printf("IOSITE %s %s %s %s:%d\n", s.Target, s.Fn, s.Method, filepath.Base(s.Pos.Filename), s.Pos.Line)
+	}
+	for _, s := range cen.escapes {
+		fmt.Printf("IOESCAPE %s %s %s %s:%d\n", s.Target, s.Fn, s.Method, filepath.Base(s.Pos.Filename), s.Pos.Line)
+	}
 	// machine-readable summary on stdout (tools/props/c13.py puts it into the evidence)
 	for _, d := range append(append([]def{}, stmtDefs...), otherDefs...) {
 		fmt.Printf("PROTO %s = %s\n", d.name, compact(d.p))
